@@ -2,7 +2,7 @@
 import re
 
 from analysis import (Prov, Guards, fmt, walk, roots, short, comparison, linear, normalised_cmp, must_pass,
-                      path_to, describe_path, find_calls, callee_matches, contains_call, _lin_add)
+                      path_to, describe_path, find_calls, callee_matches, contains_call, _lin_add, fmt_short, const_int_of)
 from facts import AnchorError
 from harness import Rule, guarded
 
@@ -343,6 +343,13 @@ def r3(ctx):
         ttl_ok = roots(f["ttl"]) == {("param", 1, "ttl")}
         cap_roots = roots(f["capacity"])
         cap_ok = any(x[0] in ("as", "field") and ("param", 2, "capacity") in [y for y in walk(x)] for x in cap_roots)
+        # ... and every given capacity is taken as it is: the only other value is the "no limit" of None, chosen on the None edge alone
+        ng = Guards(new, prov, facts)
+        cmp_on_cap = [fmt_short(e2)[:80] for bi2, t2, e2 in ng.switches() if comparison(e2) and any(y == ("param", 2, "capacity") for y in walk(e2))]
+        plain = all((x[0] in ("as", "field") and ("param", 2, "capacity") in list(walk(x))) or const_int_of(x) is not None for x in cap_roots)
+        rule.check(cap_ok and plain and not cmp_on_cap, "LruTimeCache::new keeps every Some(capacity) unchanged", "new|capacity-altered",
+                   "LruTimeCache::new does not take every given capacity as it is (it compares it: %s; stored value: %s): for some configured capacities the cache is "
+                   "unbounded or bounded differently" % (cmp_on_cap, fmt_short(f["capacity"])[:120]), loc=new.loc(new.line))
         rule.check(ttl_ok and cap_ok, "LruTimeCache::new stores ttl and capacity from its parameters", "new|fields",
                    "LruTimeCache::new does not store its ttl/capacity parameters (ttl: %s, capacity: %s)" % (
                        fmt(f["ttl"]), fmt(f["capacity"])), loc=new.loc(new.line))
